@@ -612,6 +612,8 @@ def apply_fault(r, kind, k):
         r[k % len(r)] = -np.inf
     elif kind == "1e200":
         r[k % len(r)] = 1e200
+    elif kind == "1e120":
+        r[k % len(r)] = 1e120
     elif kind == "raise":
         raise InjectedFault("injected at call %d" % k)
     else:
